@@ -632,3 +632,16 @@ SPECS["C19"].setdefault("assumptions", []).append("C doubles read as exact reals
 SPECS["C20"]["contracts"] += ["smpl_extract.util.constructs:SlicingGeneral._realize"]
 SPECS["C20"]["level_text"] += "; SlicingGeneral._realize passes the evaluated count / start / stop / step on as they are - a stop of 0 (keygroup without active zones) stays 0"
 SPECS["C20"]["not_covered"] = ["PaddedGeneral (which slots count as non-empty) as a contract; construct.Slicing itself", "the 300-line cap (truncated listings are skipped)"]
+
+# C12 / C05: the whole L/R export - concatenation of the pipeline blocks for two mono 16-bit streams of equal length, proved modularly
+for _p in ("C12", "C05"):
+    SPECS[_p]["contracts"] += ["lemma:pipeline_block_contract[1x1,w=2]", "lemma:pipeline_concatenation[1x1,w=2,equal-lengths]"]
+SPECS["C12"]["level_text"] += ("; the CONCATENATION of the pipeline blocks for an L/R pair (two mono 16-bit streams of equal length, either byte order each, any block size): draining the "
+                               "transcoder gives exactly L/2 stereo frames, frame f = (sample f of the first stream, sample f of the second) - loop invariant + measure over the block "
+                               "contract, which a lemma with the SAME clause texts discharges for the real functions")
+SPECS["C05"]["level_text"] += "; 'for pairs of equal length every frame of both is preserved' is now a discharged obligation (pipeline concatenation lemma), no longer only the bounded C12 stand-in"
+SPECS["C05"]["level_text"] = SPECS["C05"]["level_text"].replace("'Every frame of both is preserved' for equal lengths is C12 (PipelineTranscoder) - bounded there. ", "")
+SPECS["C12"]["not_covered"] = ["numpy itself (assumed item-level contracts)", "stream shapes beyond the nine proved ones (bounded monitor)",
+                               "concatenation of pipeline blocks for shapes other than the L/R pair (bounded monitor)"]
+SPECS["C05"]["not_covered"] = ["directories of more than 3 samples as a contract", "pairs of UNEQUAL length beyond one block (padding of the shorter half: block lemma + bounded monitor)"]
+SPECS["C01"]["not_covered"] = ["VolumesAdapter / FileEntriesAdapter / PartitionAdapter plumbing (construct context passing)"]
